@@ -24,6 +24,7 @@ RULES = [
     Rule('C02.R4', 'halving loops of the frequency search have a bounded trip count', 2),
     Rule('C02.R5', 'table reads of the chip layer at note-on / note-update are in range for every instrument and controller value', 10),
     Rule('C02.R7', 'WOPN_Init: every bank array is allocated with the element count stored beside it, that count is at least 1, and constant subscripts stay below it', 4),
+    Rule('C02.R8', 'the instrument pointer of a note (NULL for the place-holder of a blank instrument) is dereferenced only behind an isBlank / NULL test', 2),
     Rule('C02.R6', 'table reads inside the MAME, Nuked and GENS emulator cores are in range for every register value', 60),
 ]
 EXPLANATION = ('Byte-budget abstract interpretation (E1) of the structured bodies of the two loaders in the (cursor, length) dialect with the '
@@ -48,6 +49,7 @@ def analyse(facts, tier):
     obls += r3(facts)
     obls += r4(facts)
     obls += r7_init(facts)
+    obls += r8_note_instrument(facts)
     # R5: the interval engine's index obligations inside the chip layer (instrument fields range over their whole type there:
     # structs of the public WOPN header are never narrowed), so a clamp that an instrument byte can defeat shows up here
     from .. import e2prog
@@ -395,6 +397,46 @@ def r7_init(facts):
         ok = c == 0
         out.append(Obl('C02.R7', fn.name, '%s[%s]' % (fld, show(idx)[:20]), loc, 'discharged' if ok else 'finding',
                        why='subscript 0 < stored count (>= 1)' if ok else 'subscript %s of %s is not below the minimum element count 1' % (show(idx)[:20], fld)))
+    return out
+
+
+def r8_note_instrument(facts):
+    """a note on a blank / missing instrument is kept as a place-holder with isBlank = true and ains = NULL (realTime_NoteOn).
+    Every `*note.ains` / `note.ains->field` must therefore be dominated by `!isBlank` (early return included) or by a test of the
+    pointer itself: binding a reference to *NULL is undefined behaviour even when the reference is not used on that path."""
+    out = []
+    n = 0
+    for fn in facts.all_fns():
+        if not fn.name.startswith('OPNMIDIplay::') or fn.tree is None:
+            continue
+        for b, j, st in fn.cfg.stmts(conds=True):
+            for x in walk(st['s']):
+                tgt = None
+                if x.get('k') == 'UnaryOperator' and x.get('op') == '*':
+                    tgt = strip(x.get('e'))
+                elif x.get('k') == 'MemberExpr' and x.get('arrow'):
+                    tgt = strip(x.get('b'))
+                if not (isinstance(tgt, dict) and tgt.get('k') == 'MemberExpr' and short(tgt.get('n', '')) == 'ains' and 'NoteInfo' in tgt.get('n', '')):
+                    continue
+                n += 1
+                gf = guard_facts(fn, b, st)
+                ok = False
+                for f in gf:
+                    if f[0] == 'truth':
+                        e = strip(f[1])
+                        if e.get('k') == 'MemberExpr' and short(e.get('n', '')) == 'isBlank' and not f[2]:
+                            ok = True
+                        if e.get('k') == 'MemberExpr' and short(e.get('n', '')) == 'ains' and f[2]:
+                            ok = True
+                # `p ? p->f : d` tests the pointer in the same expression
+                for y in walk(st['s']):
+                    if y.get('k') == 'ConditionalOperator' and short(strip(y.get('cnd')).get('n', '')) == 'ains' and any(z is x for z in walk(y.get('l'))):
+                        ok = True
+                out.append(Obl('C02.R8', fn.name, show(x)[:50], st['loc'], 'discharged' if ok else 'finding',
+                               why='behind !isBlank / a test of the pointer' if ok else
+                               'NoteInfo::ains is dereferenced before the note is known not to be the blank place-holder (ains == NULL): every note-off / panic / reset of a note on a blank instrument binds a reference to a null pointer'))
+    if n < 2:
+        raise build.AnalysisBroken('C02.R8: dereferences of NoteInfo::ains not found (%d)' % n)
     return out
 
 
